@@ -71,20 +71,6 @@ example : readSync [7, 7] (628 - 97) ((List.replicate 96 1 ++ [1, 2, 3] ++ [7, 7
 example : readSync [7, 7] (628 - 96) ((List.replicate 96 1 ++ [7, 7, 3] ++ [7, 7] ++ [9]).drop 96)
     = .found [3, 7, 7, 9] := by decide
 
-/-- A toy instance of the cryptographic parameters for the non-vacuity examples. -/
-def toyC : Crypto where
-  pub x := List.replicate 96 (x.headD 0)
-  dh y x := [y.headD 0 + x.headD 0]
-  req1 _ := List.replicate 20 9
-  req3 _ := List.replicate 20 5
-  hashSKey k := List.replicate 20 (k.headD 0)
-  ks a _ _ i := if a then i % 7 + 1 else i % 5 + 2
-
-def toyO : OutCfg := { x := [3], sKey := [42], provide := 3, ia := [1, 2, 3], padA := [8, 8], padCLen := 1 }
-def toyI : InCfg := { x := [4], padB := [6], padDLen := 2,
-                      getSKey := fun h => if h = List.replicate 20 42 then some [42] else none,
-                      select := acceptSelect false }
-
 /-- Non-vacuity of `Honest` (and with it of `agree`, `stream_id`, `both_or_neither`): pads 2/1/1/2,
 initiator's first read 97 (one pad byte swallowed), receiver's 96. -/
 example : Honest toyC toyO toyI 97 96 where
@@ -111,18 +97,6 @@ example : Honest toyC toyO toyI 97 96 where
 
 example : selectedCheck (toyI.select toyO.provide) toyO.provide = .ok () := by rfl
 example : toyI.getSKey (toyC.hashSKey toyO.sKey) = some toyO.sKey := by decide
-
-/-- The receiver's getSKey looks keys up by their hash (as `torrent.getSKey` does). -/
-def LooksUpByHash (c : Crypto) (i : InCfg) : Prop := ∀ h k, i.getSKey h = some k → c.hashSKey k = h
-
-/-- Under the lookup contract and an injective `HashSKey`, the receiver either does not find the
-initiator's key or finds exactly it. -/
-theorem getSKey_cases (c : Crypto) (o : OutCfg) (i : InCfg) (hl : LooksUpByHash c i)
-    (hinj : ∀ a b, c.hashSKey a = c.hashSKey b → a = b) :
-    i.getSKey (c.hashSKey o.sKey) = none ∨ i.getSKey (c.hashSKey o.sKey) = some o.sKey := by
-  cases h : i.getSKey (c.hashSKey o.sKey) with
-  | none => exact Or.inl rfl
-  | some k => exact Or.inr (by rw [hinj k o.sKey (hl _ _ h)])
 
 /-- **agree.** Two honest endpoints, any pads `≤ 512`, any admissible first reads, any offer and
 any `cryptoSelect` function: if both sides complete, they hold the same selected method, it is a
